@@ -9,7 +9,7 @@ Local Open Scope list_scope.
 
 (* what go/types' Info.Uses says about an identifier *)
 Inductive tobj :=
-| TPkgName (imported : string)                   (* *types.PkgName *)
+| TPkgName (imported : string) (pkg : option string)  (* *types.PkgName; pkg = obj.Pkg().Path(): the importing package *)
 | TVar (isfield : bool) (pkg : option string)     (* *types.Var; pkg = obj.Pkg().Path(), None for universe *)
 | TOther (pkg : option string).                   (* func, type name, const, builtin, nil ... *)
 
@@ -27,7 +27,7 @@ Definition gotypes_resolve (o : occurrence) : string :=
     match x with
     | XNotIdent => ""
     | XIdent None => ""
-    | XIdent (Some (TPkgName p)) => p
+    | XIdent (Some (TPkgName p _)) => p
     | XIdent (Some _) => ""
     end
   | None =>
@@ -35,7 +35,7 @@ Definition gotypes_resolve (o : occurrence) : string :=
     | None => ""
     | Some (TVar true _) => ""
     | Some (TVar false (Some p)) | Some (TOther (Some p)) => p
-    | Some (TPkgName _) => ""          (* obj.Pkg() of a PkgName is the importing package: local (see pkgname_is_local) *)
+    | Some (TPkgName _ (Some p)) => p  (* obj.Pkg() of a PkgName is the importing package: resolvePath suppresses it as local *)
     | Some _ => ""
     end
   end.
@@ -94,7 +94,7 @@ Inductive role :=
 
 Definition occurrence_of (local : string) (r : role) : occurrence :=
   match r with
-  | Qualified p => mkOcc (Some (XIdent (Some (TPkgName p)))) (Some (TOther (Some p)))
+  | Qualified p => mkOcc (Some (XIdent (Some (TPkgName p (Some local))))) (Some (TOther (Some p)))
   | DotImported p => mkOcc None (Some (TOther (Some p)))
   | LocalPackageLevel => mkOcc None (Some (TOther (Some local)))
   | LocalVariable => mkOcc None (Some (TVar false None))
